@@ -90,6 +90,10 @@ impl Machine for X86 {
     }
 
     fn exec(&mut self, code: &[Code]) -> Exit {
+        self.exec_limit(code, 100_000)
+    }
+
+    fn exec_limit(&mut self, code: &[Code], limit: usize) -> Exit {
         let mut labels = HashMap::new();
         // address model: every real instruction occupies STRIDE bytes (the size of the fixed jump used in
         // jump tables), labels / comments / directives occupy none; label addresses resolve into the fragment
@@ -119,7 +123,7 @@ impl Machine for X86 {
         let mut steps = 0;
         while pc < code.len() {
             steps += 1;
-            if steps > 100_000 {
+            if steps > limit {
                 return Exit::StepLimit;
             }
             let c = &code[pc];
